@@ -211,7 +211,8 @@ def for_each(xs, body, loop_id, accs=False, mut=None):
         COUNTS["symbolic"] += 1
         if mut:
             lc0 = getattr(ctx(), "loop_contracts", {}).get(loop_id.split(":")[1])
-            left = sorted(set(x.strip() for x in mut.split(",")) - set(getattr(lc0, "covers", ()) or ()))
+            cov = getattr(lc0, "covers", ()) or ()
+            left = [] if cov == "*" else sorted(set(x.strip() for x in mut.split(",")) - set(cov))
             if left:
                 raise Unsupported(f"loop {loop_id} over a symbolic sequence mutates the local container(s) {', '.join(left)}: their "
                                   "contents at a generic iteration are unknown (no loop contract covers them)")
